@@ -272,14 +272,21 @@ pub fn run_part(component: &str, ops: &[Op]) -> Vec<String> {
         "set1-default" => run_scancode(ScancodeSet1::default(), ops),
         "set2-default" => run_scancode(ScancodeSet2::default(), ops),
         "ps2-default" => run_ps2_from(Ps2Decoder::default(), ops),
-        "kbloop" => {
+        "kbloop" | "kbnoisy" => {
+            let noisy = p[0] == "kbnoisy";
             // bytes go to add_byte and every event straight on to process_keyevent (the README loop); the transcript
             // shows the add_byte results
-            fn go<S: ScancodeSet>(set: S, ops: &[Op]) -> Vec<String> {
+            fn go<S: ScancodeSet>(set: S, ops: &[Op], noisy: bool) -> Vec<String> {
                 let mut k = Keyboard::new(set, Echo(0), HandleControl::MapLettersToUnicode);
                 ops.iter()
                     .map(|op| match op {
                         Op::Byte(b) => guard(|| {
+                            if noisy {
+                                // a line glitch and the driver's timeout recovery before every byte
+                                k.clear();
+                                let _ = k.add_bit(false);
+                                k.clear();
+                            }
                             let r = k.add_byte(*b);
                             if let Ok(Some(ev)) = &r {
                                 let _ = k.process_keyevent(ev.clone());
@@ -291,8 +298,8 @@ pub fn run_part(component: &str, ops: &[Op]) -> Vec<String> {
                     .collect()
             }
             match p.get(2).copied() {
-                Some("set1") => go(ScancodeSet1::new(), ops),
-                _ => go(ScancodeSet2::new(), ops),
+                Some("set1") => go(ScancodeSet1::new(), ops, noisy),
+                _ => go(ScancodeSet2::new(), ops, noisy),
             }
         }
         "ps2" => run_ps2(ops),
